@@ -202,6 +202,33 @@ mod int {
         }
     }
 
+    pub(crate) fn wrapping_div(dividend: VmInt, divisor: VmInt) -> RuntimeResult<VmInt, String> {
+        if divisor != 0 {
+            RuntimeResult::Return(dividend.wrapping_div(divisor))
+        } else {
+            RuntimeResult::Panic(format!("attempted to divide {} by 0", dividend))
+        }
+    }
+
+    pub(crate) fn overflowing_div(
+        dividend: VmInt,
+        divisor: VmInt,
+    ) -> RuntimeResult<(VmInt, bool), String> {
+        if divisor != 0 {
+            RuntimeResult::Return(dividend.overflowing_div(divisor))
+        } else {
+            RuntimeResult::Panic(format!("attempted to divide {} by 0", dividend))
+        }
+    }
+
+    pub(crate) fn from_str_radix(src: &str, radix: u32) -> StdResult<VmInt, ()> {
+        if (2..=36).contains(&radix) {
+            VmInt::from_str_radix(src, radix).map_err(|_| ())
+        } else {
+            Err(())
+        }
+    }
+
     pub(crate) fn wrapping_rem(dividend: VmInt, divisor: VmInt) -> RuntimeResult<VmInt, String> {
         if divisor != 0 {
             RuntimeResult::Return(dividend.wrapping_rem(divisor))
@@ -252,6 +279,46 @@ mod int {
                 "attempted to calculate overflowing euclidean remainder of {} divided by 0",
                 dividend
             ))
+        }
+    }
+}
+
+mod byte {
+    use super::*;
+
+    pub(crate) fn wrapping_div(dividend: u8, divisor: u8) -> RuntimeResult<u8, String> {
+        if divisor != 0 {
+            RuntimeResult::Return(dividend.wrapping_div(divisor))
+        } else {
+            RuntimeResult::Panic(format!("attempted to divide {} by 0", dividend))
+        }
+    }
+
+    pub(crate) fn overflowing_div(dividend: u8, divisor: u8) -> RuntimeResult<(u8, bool), String> {
+        if divisor != 0 {
+            RuntimeResult::Return(dividend.overflowing_div(divisor))
+        } else {
+            RuntimeResult::Panic(format!("attempted to divide {} by 0", dividend))
+        }
+    }
+}
+
+mod chr {
+    use super::*;
+
+    pub(crate) fn is_digit(c: char, radix: u32) -> RuntimeResult<bool, String> {
+        if (2..=36).contains(&radix) {
+            RuntimeResult::Return(c.is_digit(radix))
+        } else {
+            RuntimeResult::Panic(format!("radix {} is not in the range 2..=36", radix))
+        }
+    }
+
+    pub(crate) fn to_digit(c: char, radix: u32) -> RuntimeResult<Option<u32>, String> {
+        if (2..=36).contains(&radix) {
+            RuntimeResult::Return(c.to_digit(radix))
+        } else {
+            RuntimeResult::Panic(format!("radix {} is not in the range 2..=36", radix))
         }
     }
 }
@@ -596,11 +663,11 @@ pub fn load_byte(vm: &Thread) -> Result<ExternModule> {
             wrapping_add => primitive!(2, std::byte::prim::wrapping_add),
             wrapping_sub => primitive!(2, std::byte::prim::wrapping_sub),
             wrapping_mul => primitive!(2, std::byte::prim::wrapping_mul),
-            wrapping_div => primitive!(2, std::byte::prim::wrapping_div),
+            wrapping_div => primitive!(2, "std::byte::prim::wrapping_div", byte::wrapping_div),
             overflowing_add => primitive!(2, std::byte::prim::overflowing_add),
             overflowing_sub => primitive!(2, std::byte::prim::overflowing_sub),
             overflowing_mul => primitive!(2, std::byte::prim::overflowing_mul),
-            overflowing_div => primitive!(2, std::byte::prim::overflowing_div),
+            overflowing_div => primitive!(2, "std::byte::prim::overflowing_div", byte::overflowing_div),
             from_int => primitive!(1, "std.byte.prim.from_int", |i: VmInt| i as u8),
             parse => primitive!(1, "std.byte.prim.parse", parse::<u8>),
         },
@@ -617,7 +684,7 @@ pub fn load_int(vm: &Thread) -> Result<ExternModule> {
             from_str_radix => primitive!(
                 2,
                 "std.int.prim.from_str_radix",
-                |src, radix| std::int::prim::from_str_radix(src, radix).map_err(|_| ())
+                int::from_str_radix
             ),
             shl => primitive!(2, std::int::shl),
             arithmetic_shr => primitive!(2, std::int::arithmetic_shr),
@@ -648,7 +715,7 @@ pub fn load_int(vm: &Thread) -> Result<ExternModule> {
             wrapping_add => primitive!(2, std::int::prim::wrapping_add),
             wrapping_sub => primitive!(2, std::int::prim::wrapping_sub),
             wrapping_mul => primitive!(2, std::int::prim::wrapping_mul),
-            wrapping_div => primitive!(2, std::int::prim::wrapping_div),
+            wrapping_div => primitive!(2, "std::int::prim::wrapping_div", int::wrapping_div),
             wrapping_abs => primitive!(1, std::int::prim::wrapping_abs),
             wrapping_rem => primitive!(2, "std::int::prim::wrapping_rem", int::wrapping_rem),
             wrapping_rem_euclid => primitive!(2, "std::int::prim::wrapping_rem", int::wrapping_rem_euclid),
@@ -656,7 +723,7 @@ pub fn load_int(vm: &Thread) -> Result<ExternModule> {
             overflowing_add => primitive!(2, std::int::prim::overflowing_add),
             overflowing_sub => primitive!(2, std::int::prim::overflowing_sub),
             overflowing_mul => primitive!(2, std::int::prim::overflowing_mul),
-            overflowing_div => primitive!(2, std::int::prim::overflowing_div),
+            overflowing_div => primitive!(2, "std::int::prim::overflowing_div", int::overflowing_div),
             overflowing_abs => primitive!(1, std::int::prim::overflowing_abs),
             overflowing_rem => primitive!(2, "std::int::prim::overflowing_rem", int::overflowing_rem),
             overflowing_rem_euclid => primitive!(2, "std::int::prim::overflowing_rem_euclid", int::overflowing_rem_euclid),
@@ -839,8 +906,8 @@ pub fn load_char(vm: &Thread) -> Result<ExternModule> {
         record! {
             from_int => primitive!(1, "std.char.prim.from_int", ::std::char::from_u32),
             to_int => primitive!(1, "std.char.prim.to_int", |c: char| c as u32),
-            is_digit => primitive!(2, std::char::prim::is_digit),
-            to_digit => primitive!(2, std::char::prim::to_digit),
+            is_digit => primitive!(2, "std::char::prim::is_digit", chr::is_digit),
+            to_digit => primitive!(2, "std::char::prim::to_digit", chr::to_digit),
             len_utf8 => primitive!(1, std::char::prim::len_utf8),
             len_utf16 => primitive!(1, std::char::prim::len_utf16),
             is_alphabetic => primitive!(1, std::char::prim::is_alphabetic),
